@@ -14,6 +14,13 @@ def run_both(cases, want_model=True):
     return list(zip(cases, ri, rm))
 
 
+def run_both_chunks(cases, size=15000, want_model=True):
+    """run_both over slices of the case list: the records of a slice (whole generated texts and tables, for the
+    implementation and for the model) can be dropped before the next slice is run"""
+    for i in range(0, len(cases), size):
+        yield run_both(cases[i:i + size], want_model)
+
+
 def tabify(data):
     """the repository's example templates use two-space indentation, which the compiler rejects;
     convert leading pairs of spaces to tabs so that they are accepted"""
@@ -73,7 +80,8 @@ def correspondence(chk, triples, fields, layer="L-COMPILE"):
         d = compilecmp.diff(rm, ri, fields)
         if d:
             n += 1
-            if n <= 3:
+            chk.corr_reported = getattr(chk, "corr_reported", 0) + 1
+            if chk.corr_reported <= 3:
                 chk.broke("correspondence", layer, "model and implementation disagree on " + ",".join(d),
                           input_hex=common.hx(c), input_text=c.decode("utf-8", "replace")[:400],
                           impl={f: str(getattr(ri, f, None))[:300] for f in d},
